@@ -264,6 +264,11 @@ func (g *sessGen) expr(vars []string, depth int) string {
 			return fmt.Sprintf("(%s %s)", callee, g.expr(vars, depth-1))
 		}
 		return atom()
+	case x < 77 && g.curFun != "":
+		// a call of a function that is never defined (in a branch that is not taken): CompileList registers a
+		// placeholder for it, which the snapshot writer must not take for a definition (repo_fixes/C19-1)
+		g.hist("expr:call-undefined-function")
+		return fmt.Sprintf("(if (> %s 1000) (never-defined-%d %s) %s)", atom(), g.r.Intn(3), atom(), g.expr(vars, depth-1))
 	case x < 80:
 		g.hist("expr:length-quoted")
 		return fmt.Sprintf("(length '(a %s \"s\"))", common.Pick(g.r, []string{"b", "(c d)", "1"}))
@@ -331,7 +336,7 @@ func (g *sessGen) special(vars []string, depth int, atom func() string) string {
 	with := func(v ...string) func() string {
 		return func() string { return g.expr(append(append([]string{}, v...), vars...), depth-1) }
 	}
-	k := g.r.Intn(34)
+	k := g.r.Intn(37)
 	g.hist(fmt.Sprintf("special:%02d", k))
 	switch k {
 	case 0:
@@ -381,7 +386,7 @@ func (g *sessGen) special(vars []string, depth int, atom func() string) string {
 	case 22:
 		return fmt.Sprintf("(multiple-value-bind (q r) (truncate 17 5) (+ q r %s))", e())
 	case 23:
-		return fmt.Sprintf("(let ((l (list 1 2 3))) (setf (car l) %s) (apply '+ l))", e())
+		return fmt.Sprintf("(let ((lst (list 1 2 3))) (setf (car lst) %s) (apply '+ lst))", e())
 	case 24:
 		return fmt.Sprintf("(let ((n %s)) (incf n) (incf n 2) (decf n) n)", e())
 	case 25:
@@ -389,7 +394,7 @@ func (g *sessGen) special(vars []string, depth int, atom func() string) string {
 	case 26:
 		return fmt.Sprintf("(if (and (string= \"a\\\"b\" \"a\\\"b\") (char= #\\a #\\a) (or nil (> %s -100))) %s 0)", atom(), e())
 	case 27:
-		return fmt.Sprintf("(let ((v #(1 2 3))) (setf (aref v 0) %s) (+ (aref v 0) (aref v 2)))", e())
+		return fmt.Sprintf("(let ((vec (vector 1 2 3))) (setf (aref vec 0) %s) (+ (aref vec 0) (aref vec 2)))", e())
 	case 28:
 		return fmt.Sprintf("(let ((z 0)) (unwind-protect (+ %s 1) (setq z 1)))", e())
 	case 29:
@@ -398,6 +403,14 @@ func (g *sessGen) special(vars []string, depth int, atom func() string) string {
 		return fmt.Sprintf("(let ((v (let ((w (* %s 2))) (+ w 1)))) (let ((u v)) (+ u v)))", e())
 	case 31:
 		return fmt.Sprintf("(let ((z 0)) (prog1 (+ %s z 1) (setq z 5)))", e())
+	// flet, catch and handler-case compile a local name / tag / clause as a call of an undefined function; until
+	// repo_fixes/C19-1 its placeholder made (snapshot nil) die (what they evaluate to is another property's matter)
+	case 34:
+		return fmt.Sprintf("(if (> %s 1000) (catch 'tg (throw 'tg (* 2 %s)) 0) %s)", atom(), atom(), e())
+	case 35:
+		return fmt.Sprintf("(if (> %s 1000) (catch 'tag (throw 'tag (+ %s 1)) 0) %s)", atom(), atom(), e())
+	case 36:
+		return fmt.Sprintf("(if (> %s 1000) (handler-case (/ %s 0) (error (c) -1)) %s)", atom(), atom(), e())
 	case 32:
 		return fmt.Sprintf("(let ((h (make-hash-table))) (setf (gethash 'k h) %s) (+ 1 (gethash 'k h)))", e())
 	default:
@@ -494,6 +507,17 @@ func (g *sessGen) step() {
 		nb := 1
 		if g.r.Chance(25) {
 			nb = 2
+		}
+		if g.r.Chance(8) {
+			// a form at the top of a body is compiled when the function is defined: a call of a function that is never
+			// defined, and the tag / clause of catch, handler-case register a placeholder function,
+			// which the snapshot writer must not take for a definition (repo_fixes/C19-1; calling such a function is an
+			// error in both processes)
+			g.hist("op:defun-body-with-undefined-callee")
+			f += " " + common.Pick(g.r, []string{
+				fmt.Sprintf("(never-defined-%d 1)", g.r.Intn(3)),
+				"(catch 'tag (throw 'tag 1) 0)",
+				"(handler-case (/ 1 0) (error (c) -1))"})
 		}
 		for i := 0; i < nb; i++ {
 			f += " " + g.expr(k.vars, 3)
